@@ -295,7 +295,7 @@ def lipschitz_facts(kind, seed, tid0, nrep):
     traces = []
     tid = tid0
     for rep in range(nrep):
-        n, p = int(rng.integers(4, 9)), int(rng.integers(2, 6))
+        n, p = int(rng.integers(4, 10)), int(rng.integers(2, 9))
         X = np.asfortranarray(np.round(rng.standard_normal((n, p)) * 2) / 2 * (rng.random((n, p)) < 0.8))
         if rep % 5 == 0:
             X[:, -1] = 0.0
@@ -304,7 +304,8 @@ def lipschitz_facts(kind, seed, tid0, nrep):
         if rep % 5 == 2:
             X = X * np.array([1e3] + [1.0] * (p - 1))
         if rep % 5 == 3:
-            X = np.asfortranarray(X - X.mean(axis=0))      # every column sums to zero (contrast coding)
+            X = np.asfortranarray(X)
+            X[0, :] -= X.sum(axis=0)            # every column sums EXACTLY to zero (contrast coding; dyadic entries)
         dd = {"kind": kind}
         sw = None
         if kind in ("Logistic", "LogisticGroup", "QuadraticSVC"):
